@@ -180,8 +180,8 @@ register(
     level="proof",
     streams=["fifo", "fp", "arrival"],
     falsifier=fals_analyses.falsify_C18,
-    partial=["FIFO and fully preemptive FP: proved (in EVERY legal schedule of a job set that realises the curves from a common instant, jobs at their WCET, some job (FP: of the analysed task) has response time exactly the bound; legal schedules exist by a greedy construction; sporadic/periodic tasks are realisable from the critical instant). Fully non-preemptive FP: explored by simulation of the critical-instant schedule with a lower-priority job started one tick earlier, not proved; realisability of auto-extrapolating super-additive curves by their densest sequence: explored (the falsifier schedules it), not proved"],
-    explanation="tightness of the FIFO and of the fully preemptive FP bound as theorems over all legal schedules (lower bound by counting the work that must precede the completion of the last job released at the maximising offset; upper bound = C03/C01 soundness) plus existence of schedules (greedy scheduler constructions); NP-FP tightness by witness search.",
+    partial=["FIFO, fully preemptive FP and fully non-preemptive FP: proved (in EVERY legal schedule of a job set that realises the curves from a common instant, jobs at their WCET — NP-FP with a positive blocking bound: a lower-priority job of cost B+1 started one slot earlier — some job (FP: of the analysed task) has response time exactly the bound; legal schedules exist by greedy constructions). Realisability proved for sporadic/periodic tasks (critical instant) and for auto-extrapolating super-additive delta-min curves (densest event sequence). Not proved: that the hypotheses `hhp`/`hown` (aggregate workload realised) follow from per-task realisation for ARBITRARY mixtures of models in one theorem statement — they are instantiated per family"],
+    explanation="tightness of the FIFO and of the fully preemptive FP bound as theorems over all legal schedules (lower bound by counting the work that must precede the completion of the last job released at the maximising offset; upper bound = C03/C01 soundness) plus existence of schedules (greedy scheduler constructions); the falsifier additionally schedules the critical-instant job sets (sporadic and extrapolating curves) and compares the worst response with the real bound.",
 )
 
 
